@@ -144,6 +144,9 @@ LoadAll(st) == IF st.scan.toLoad = {} THEN st
 \* (runtime.KeepAlive(shards)); results point into the mappings until copyFiles, before done().
 Snapshot(st, p) == [st EXCEPT !.srch[p] = [pc |-> "run", snap |-> st.ranked, todo |-> st.ranked, held |-> {}, got |-> {}]]
 ReadShard(st, p, i) == [st EXCEPT !.srch[p] = [@ EXCEPT !.todo = @ \ {i}, !.held = @ \cup {i}, !.got = @ \cup {i}]]
+\* streamSearch has returned: every shard was read, the results still point into the mappings,
+\* only the done closure (KeepAlive) references the slice
+ReadAll(st, p) == [st EXCEPT !.srch[p] = [@ EXCEPT !.todo = {}, !.held = @ \cup st.srch[p].todo, !.got = @ \cup st.srch[p].todo]]
 SearchDone(st, p) == [st EXCEPT !.srch[p] = [@ EXCEPT !.pc = "done", !.snap = {}, !.todo = {}, !.held = {}]]
 SearchAll(st, p) == [st EXCEPT !.srch[p] = [@ EXCEPT !.pc = "done", !.got = st.srch[p].snap, !.snap = {}, !.todo = {}, !.held = {}]]
 
